@@ -30,8 +30,8 @@
 (*        preimage of the message was changed (no signature over such a    *)
 (*        list exists).                                                    *)
 (*  History = TRUE multiplies every domain by the announcement histories   *)
-(*        of the eon's keyper set (Anns): the classes are then relative to *)
-(*        the LAST announced set.                                          *)
+(*        and lookup-miss states of the node's storage (Stores): the       *)
+(*        classes are then relative to the LAST announced set.             *)
 (*  sample  random sampling of the base domain for larger n (SampleSpec),  *)
 (*        drawn by TLC itself (Randomization, seeded by -seed): shape      *)
 (*        "free" draws both lists uniformly, shape "near" draws a          *)
@@ -44,7 +44,7 @@ CONSTANTS
     Flavours,   \* subset of {"gnosis", "service"}
     NSet,       \* keyper set sizes
     TSel,       \* thresholds to include (intersected with 0..n+1)
-    History,    \* TRUE: every case under every announcement history of Anns; FALSE: <<"S">> only
+    History,    \* TRUE: every case under every storage state of Stores; FALSE: <<"S">>, key stored, only
     Domain,     \* "base" | "mut" (Spec); the sample uses SampleSpec
     SampleNum,  \* number of draws of SampleSpec
     Emit        \* print the cases?
@@ -61,10 +61,25 @@ Classes(f, n) ==
     (IF n >= 2 THEN {Class("member", "")} ELSE {}) \cup
     {Class("chg", x) : x \in SignedFields(f)}
 
+(* storage states: announcement history of the eon's keyper set (see SigRule) x eon key.
+   Announced once; twice (initial sync and subscription overlap); replaced by a re-announcement,
+   both ways round; LOOKUP MISS: nothing announced, only another eon's set announced; another
+   eon's set before the eon's own; eon key stored after the sets; no eon key. *)
+St(a, k) == [ann |-> a, key |-> k]
+Stores ==
+    IF History
+    THEN {St(<<"S">>, "before"), St(<<"S", "S">>, "before"), St(<<"X", "S">>, "before"), St(<<"S", "X">>, "before"),
+          St(<<>>, "before"), St(<<"O">>, "before"), St(<<"O", "S">>, "before"),
+          St(<<"S">>, "after"), St(<<>>, "after"), St(<<"S">>, "none")}
+    ELSE {St(<<"S">>, "before")}
+
+(* the set the signature classes are relative to: the eon's set, S when it has none *)
+RefSet(ann) == LET x == LastFor(ann, Len(ann)) IN IF x = "" THEN "S" ELSE x
+
 (* the signature token of the key that holds index idx of the eon's set (the last announced):
    set S: member idx; set X = <<outsider, member 0, ..>>: index 0 is the outsider (token n) *)
 HolderTok(idx, n, ann) ==
-    IF ann[Len(ann)] = "S" THEN idx ELSE IF idx = 0 THEN n ELSE idx - 1
+    IF RefSet(ann) = "S" THEN idx ELSE IF idx = 0 THEN n ELSE idx - 1
 
 (* classes are relative to the holder of the listed index: *)
 Listed(signers, n, i) == IF i <= Len(signers) /\ signers[i] < n THEN signers[i] ELSE (i - 1) % n
@@ -74,7 +89,7 @@ Expand(cl, signers, n, i, ann) ==
         me == HolderTok(idx, n, ann)
         other == HolderTok((idx + 1) % n, n, ann)
         \* a key that holds no index of the eon's set: the outsider for S, member n-1 for X
-        out == IF ann[Len(ann)] = "S" THEN n ELSE n - 1
+        out == IF RefSet(ann) = "S" THEN n ELSE n - 1
     IN
     CASE cl.cl = "listed"   -> Sig("ok", me, "")
       [] cl.cl = "member"   -> Sig("ok", other, "")
@@ -85,12 +100,8 @@ Expand(cl, signers, n, i, ann) ==
 
 ExpandAll(q, signers, n, ann) == [i \in DOMAIN q |-> Expand(q[i], signers, n, i, ann)]
 
-(* announcement histories of the eon's keyper set (see SigRule): announced once; announced twice
-   (initial sync and subscription overlap); replaced by a re-announcement, both ways round *)
-Anns == IF History THEN {<<"S">>, <<"S", "S">>, <<"X", "S">>, <<"S", "X">>} ELSE {<<"S">>}
-
-Seed(f, n, t, signers, mut, ann) ==
-    [f |-> f, n |-> n, t |-> t, signers |-> signers, sigs |-> <<>>, mut |-> mut, ann |-> ann]
+Seed(f, n, t, signers, mut, st) ==
+    [f |-> f, n |-> n, t |-> t, signers |-> signers, sigs |-> <<>>, mut |-> mut, ann |-> st.ann, key |-> st.key]
 
 (* what can change in a message after signing: a signed field, or the byte length of one
    identity preimage *)
@@ -103,10 +114,10 @@ GoodLists(n, t) == {s \in [1..t -> 0..(n - 1)] : StrictlyIncreasing(s)}
    as bounded quantifiers inside Init/Next instead of as named sets. *)
 IsBaseSeed(s) ==
     \E n \in NSet : \E t \in Thresholds(n) : \E f \in Flavours : \E m \in 0..(n + 1) :
-        \E sg \in [1..m -> 0..n] : \E a \in Anns : s = Seed(f, n, t, sg, "", a)
+        \E sg \in [1..m -> 0..n] : \E a \in Stores : s = Seed(f, n, t, sg, "", a)
 IsMutSeed(s) ==
     \E n \in NSet : \E t \in Thresholds(n) \cap (0..n) : \E f \in Flavours : \E mu \in MutKinds(f) :
-        \E sg \in GoodLists(n, t) : \E a \in Anns : s = Seed(f, n, t, sg, mu, a)
+        \E sg \in GoodLists(n, t) : \E a \in Stores : s = Seed(f, n, t, sg, mu, a)
 
 IsBaseCompletion(s, s2) ==
     \E m \in 0..(s.n + 1) : \E q \in [1..m -> Classes(s.f, s.n)] :
@@ -149,8 +160,8 @@ SampleInit ==
        \E sg \in Pick(IF near THEN GoodLists(n, t) ELSE [1..m -> 0..n]) :
        \E len \in Pick(IF near THEN {t - 1, t, t + 1} \cap (0..(n + 1)) ELSE 0..(n + 1)) :
        \E q \in Pick(IF near THEN NearClassSeqs(f, n, len) ELSE [1..len -> Classes(f, n)]) :
-       \E a \in Pick(Anns) :
-           c = [Seed(f, n, t, sg, "", a) EXCEPT !.sigs = ExpandAll(q, sg, n, a)]
+       \E a \in Pick(Stores) :
+           c = [Seed(f, n, t, sg, "", a) EXCEPT !.sigs = ExpandAll(q, sg, n, a.ann)]
 
 SampleSpec == SampleInit /\ [][Next]_vars
 
